@@ -25,7 +25,7 @@ type c03 struct{ base }
 func init() {
 	core.Register(c03{base{id: "C03", level: "exploration", quickB: 16, thoroughB: 32,
 		rule:        "four monitors (the fourth, framing probes: messages of every type with arbitrary non-fatal bodies - oversized with lengths around multiples of L, unknown types, Sync/Flush/Close/Query with surplus, stray COPY messages, failing extended messages, valid Parse/Bind/Describe/Execute/Close bodies cut short at any offset inside a correct frame - interleaved with numbered probes Sync + Query; every probe must reach the parser exactly once and in order). (1) segmentation metamorphism: generated client byte streams (optional SSLRequest/N, startup, optional password, simple/extended/COPY traffic, surplus-carrying and truncated messages, optionally cut short at a random offset) are delivered under 6 (quick) / 12 (thorough) segmentations - all at once, one byte per read, cuts inside every message header, PRNG cut sets, PRNG cut sets with a client pause at every cut (virtual time: a pending read deadline fires) - and the normalised transcript + callback trace must be identical. (2) surplus isolation: Query/Parse/Bind/Describe/Execute/Close/Sync/Flush/CopyDone messages get surplus bytes appended inside their declared length (sentinel text, bytes that parse as a binary COPY row or as another protocol message); the transcript and every callback argument must equal the run without surplus and never contain the sentinel. (3) accessor cursor: buffer.Reader positioned on a generated body followed by a sentinel 'next message'; random sequences of GetString/GetBytes(n>=0)/GetUint16/GetUint32/GetPrepareType are compared with an independent cursor over the body (values, errors, no read beyond the message, no panic; checkptr build, child process). Non-trivial = stream with >= 3 messages and a cut inside a header, surplus case, or accessor sequence hitting the end of the body; distinct = stream shape / surplus placement / accessor sequence shape.",
-		need:        []string{"short_bodies_framed", "streams", "segmentations_compared", "cuts_inside_headers", "surplus_cases", "accessor_sequences", "accessor_calls_compared", "accessor_short_data_errors", "truncated_streams", "framing_probes_seen", "granule_positions"},
+		need:        []string{"short_bodies_framed", "streams", "segmentations_compared", "cuts_inside_headers", "surplus_cases", "accessor_sequences", "accessor_calls_compared", "accessor_short_data_errors", "truncated_streams", "framing_probes_seen", "granule_positions", "loopback_segmentations_compared"},
 		assumptions: append([]string{"ParameterStatus runs are compared as multisets (the library iterates a Go map); after an accessor returned an error the rest of that sequence is not judged"}, commonAssumptions...)}})
 }
 
@@ -129,6 +129,12 @@ func (ch c03) Run(c *core.Ctx) {
 			continue
 		}
 		ch.segmentation(c, envPlain, envAuth, core.NewRng(c.Seed, "C03s", c.Batch, i), segs, i)
+	}
+	// the same comparison over real loopback sockets, where the kernel knows more about the peer than the bytes
+	for i := 0; i < 3; i++ {
+		if c.Begin(95000+i) && c.NViol() < 10 {
+			ch.realTCP(c, core.NewRng(c.Seed, "C03tcp", c.Batch, i))
+		}
 	}
 	// a server with certificates on which a few clients got their 'S' and then gave up (hung up, or sent
 	// something that is no handshake); afterwards two connections are open at the same time: each one's
